@@ -191,6 +191,7 @@ impl Debug for Request {
 #[allow(clippy::large_enum_variant)] // Request is at fault
 pub enum BatchRequest {
     /// Single query
+    #[serde(deserialize_with = "deserialize_request_object")]
     Single(Request),
 
     /// Non-empty array of queries
@@ -269,18 +270,53 @@ impl BatchRequest {
     }
 }
 
-fn deserialize_non_empty_vec<'de, D, T>(deserializer: D) -> Result<Vec<T>, D::Error>
+/// A request that can only be deserialized from a map: the derived
+/// implementation of `Request` would also accept a sequence of its fields, so
+/// that `[]` would be a single (empty) request instead of an empty batch.
+struct RequestObject(Request);
+
+impl<'de> Deserialize<'de> for RequestObject {
+    fn deserialize<D: Deserializer<'de>>(deserializer: D) -> Result<Self, D::Error> {
+        struct Visitor;
+
+        impl<'de> serde::de::Visitor<'de> for Visitor {
+            type Value = RequestObject;
+
+            fn expecting(&self, f: &mut Formatter) -> fmt::Result {
+                f.write_str("a request object")
+            }
+
+            fn visit_map<A: serde::de::MapAccess<'de>>(
+                self,
+                map: A,
+            ) -> Result<Self::Value, A::Error> {
+                Request::deserialize(serde::de::value::MapAccessDeserializer::new(map))
+                    .map(RequestObject)
+            }
+        }
+
+        deserializer.deserialize_map(Visitor)
+    }
+}
+
+fn deserialize_request_object<'de, D>(deserializer: D) -> Result<Request, D::Error>
 where
     D: Deserializer<'de>,
-    T: Deserialize<'de>,
+{
+    RequestObject::deserialize(deserializer).map(|request| request.0)
+}
+
+fn deserialize_non_empty_vec<'de, D>(deserializer: D) -> Result<Vec<Request>, D::Error>
+where
+    D: Deserializer<'de>,
 {
     use serde::de::Error as _;
 
-    let v = <Vec<T>>::deserialize(deserializer)?;
+    let v = <Vec<RequestObject>>::deserialize(deserializer)?;
     if v.is_empty() {
         Err(D::Error::invalid_length(0, &"a non-empty sequence"))
     } else {
-        Ok(v)
+        Ok(v.into_iter().map(|request| request.0).collect())
     }
 }
 
